@@ -408,6 +408,7 @@ static void mitm_hs_gen(Plan *p, uint64_t base_seed, uint64_t variant, int tier)
 		r->wchunk[0] = p->rounds[0].wchunk[1]; r->wchunk[1] = p->rounds[0].wchunk[0];
 		r->rbuf_max[0] = p->rounds[0].rbuf_max[1]; r->rbuf_max[1] = p->rounds[0].rbuf_max[0];
 	}
+	if (getenv("GMSIM_GEN_NOTWIN")) return;      /* plan without faults: lets a crash inside the twin be replayed */
 	const Twin *tw = twin_get(p);
 	if (!tw->ok) return;
 	rng_seed(&v, base_seed ^ mix64(variant + 1), 0x403);
@@ -599,6 +600,7 @@ static void mitm_data_gen(Plan *p, uint64_t base_seed, uint64_t variant, int tie
 	gen_common(p, &g, tier);
 	p->interpose = 1;
 	gen_rounds(p, &g, tier, tier ? 5 : 3, tier ? 40000 : 20000);
+	if (getenv("GMSIM_GEN_NOTWIN")) return;      /* plan without faults: lets a crash inside the twin be replayed */
 	const Twin *tw = twin_get(p);
 	if (!tw->ok) return;
 	rng_seed(&v, base_seed ^ mix64(variant + 1), 0x405);
